@@ -13,8 +13,9 @@ EVID = os.path.join(VERIF, "evidence")
 
 
 class Ctx:
-    def __init__(self, pid, tier="quick", seed=0, repo=None, quiet=False):
+    def __init__(self, pid, tier="quick", seed=0, repo=None, quiet=False, variant=""):
         self.pid = pid
+        self.variant = variant
         self.tier = tier
         self.seed = seed
         self.repo = repo
@@ -42,7 +43,7 @@ class Ctx:
     def prog(self, *pkgs):
         key = tuple(pkgs)
         if key not in self.progs:
-            p = Program(pkgs, log=self.log, repo=self.repo)
+            p = Program(pkgs, log=self.log, repo=self.repo, variant=self.variant)
             self.progs[key] = p
             for k in pkgs:
                 if k not in self.crates_used:
